@@ -418,6 +418,7 @@ import (
 	"context"
 	"io"
 	"runtime"
+	"sync/atomic"
 	"testing"
 	"time"
 
@@ -449,7 +450,7 @@ func (c zzBlockingCloner) Copy(out, in interface{}) error {
 }
 func (c zzBlockingCloner) Clone(in interface{}) (interface{}, error) { return ProtoCloner{}.Clone(in) }
 
-var zzSink int
+var zzSink int64
 
 func zzChannel(h func(ctx context.Context) (interface{}, error)) *Channel {
 	ch := &Channel{}
@@ -585,7 +586,7 @@ func TestZZGovcReplay(t *testing.T) {
 				for j := 0; j < n; j++ {
 					x += j
 				}
-				zzSink = x
+				atomic.StoreInt64(&zzSink, int64(x))
 				cancel()
 			}()
 			err := ch.Invoke(ctx, "/svc/M", &emptypb.Empty{}, &emptypb.Empty{})
